@@ -288,21 +288,36 @@ def check(ctx) -> Result:
         raise AnalysisError("MLE: kron(rho, projector) not found")
     okm = len({a + "x" + b for a, b, _ in amat[1]}) == 1
     orders["MLE"] = (amat[1][0][0] + "x" + amat[1][0][1], amat[1][0][2], amat[0])
-    cu = ctx.func(UT, "choi_from_unitary")
+    cu0 = ctx.func(UT, "choi_from_unitary")
+    from ..inline import inl as _inl
+    from .. import conjalg as _ca
+    cu = _inl(cu0)
     rets = [r for r in walk_no_nested(cu.node) if isinstance(r, ast.Return)]
-    rv = rets[0].value
+    rv = rets[0].value if rets else None
     ref_order = "?"
     if isinstance(rv, ast.Call) and src(rv.func).endswith("outer") and len(rv.args) == 2:
-        a = src(rv.args[0]).replace(" ", "")
-        if a in ("unitary.flatten()", "unitary.ravel()", "_vec(unitary)", "unitary.reshape(-1)"):
-            ref_order = "OUTxIN"  # row-major: (row = output, column = input)
-        elif a in ("unitary.T.flatten()", "unitary.flatten(order='F')", "unitary.flatten('F')", "_vec(unitary.T)", "unitary.T.ravel()", "unitary.transpose().flatten()"):
-            ref_order = "INxOUT"
+        pn_ = cu0.params()[0]
+        # the parameter may be re-bound to np.array(parameter): same matrix
+        class _Ev(_ca.Evaluator):
+            def ev(self, e):
+                if isinstance(e, ast.Call) and src(e.func).split(".")[-1] in ("flatten", "ravel") and any(k.arg == "order" and isinstance(k.value, ast.Constant) and k.value.value == "F" for k in e.keywords) or (isinstance(e, ast.Call) and src(e.func).split(".")[-1] in ("flatten", "ravel") and e.args and isinstance(e.args[0], ast.Constant) and e.args[0].value == "F"):
+                    return _ca.Vec(_ca.transpose(self.ev(e.func.value)))
+                if isinstance(e, ast.Call) and src(e.func).split(".")[-1] == "reshape" and isinstance(e.func, ast.Attribute) and len(e.args) == 1 and src(e.args[0]) in ("-1", "(-1,)"):
+                    return _ca.Vec(self.ev(e.func.value))
+                return super().ev(e)
+        evr = _Ev(_leaf_classifier({pn_: _ca.Atom("U", "general")}))
+        try:
+            a_ = _ca.norm(evr.ev(rv.args[0]))
+            if isinstance(a_, _ca.Vec) and isinstance(a_.m, _ca.Atom) and a_.m.name == "U":
+                ref_order = "INxOUT" if a_.m.t else "OUTxIN"  # row-major vec(U): (row = output, column = input)
+        except _ca.Unknown:
+            pass
     if ref_order == "?":
-        raise AnalysisError("choi_from_unitary: vectorisation idiom not recognised")
+        res.frozen(False, "K-order-choi-factors", "choi_from_unitary vs estimators", cu0.site(), cu0.qualname, "", "vectorisation of the unitary in choi_from_unitary not recognised", construct=src(rv)[:120] if rv is not None else "")
     res.add(okm and orders["LI"][0] == orders["MLE"][0], "K-order-estimators-agree", "LI vs MLE", orders["LI"][2].site(orders["LI"][1]), "LIProcessTomography.process", f"both estimators build Choi matrices in {orders['LI'][0]} factor order",
             f"LI uses {orders['LI'][0]} but MLE uses {orders['MLE'][0]}", construct=src(orders["LI"][1]))
-    res.add(ref_order == orders["LI"][0], "K-order-choi-factors", "choi_from_unitary vs estimators", cu.site(rets[0]), cu.qualname, f"reference and estimators use {ref_order}",
+    if ref_order != "?":
+      res.add(ref_order == orders["LI"][0], "K-order-choi-factors", "choi_from_unitary vs estimators", cu0.site(rets[0]), cu0.qualname, f"reference and estimators use {ref_order}",
             f"choi_from_unitary vectorises the unitary row-major, i.e. in {ref_order} factor order, while the estimators reconstruct in {orders['LI'][0]} order: for a non-symmetric unitary the linear-inversion result equals choi_from_unitary(U.T), not choi_from_unitary(U)",
             construct=src(rets[0].value))
     conj_conventions(ctx, res, li, mle_cls, cu)
